@@ -178,12 +178,8 @@ func c08Accumulator(p *chk.Prog, r *chk.Report) {
 		}
 		m := rangeVal(f, rs)
 		guard := chk.GAnyOf(g.GPat(false, "cidrsOverlap(C, M)", chk.H("C", cidr), chk.H("M", m)), g.GPat(false, "cidrsOverlap(M, C)", chk.H("C", cidr), chk.H("M", m)))
-		if o, w := g.LoopForall(rs, guard); o {
-			if g.AfterLoop(app, rs) {
-				okOverlap = true
-			} else {
-				why = "the CIDR is accepted before the overlap loop finished"
-			}
+		if w := forallBefore(f, g, rs, guard, app); w == "" {
+			okOverlap = true
 		} else {
 			why = w
 		}
@@ -197,25 +193,22 @@ func c08Accumulator(p *chk.Prog, r *chk.Report) {
 			continue
 		}
 		guard := g.GPat(false, "C.Contains(IP)", chk.H("C", cidr), chk.H("IP", rangeVal(f, rs)))
-		if o, w := g.LoopForall(rs, guard); o {
-			if g.AfterLoop(app, rs) {
-				okNode = true
-			} else {
-				why2 = "the CIDR is accepted before the node-IP loop finished"
-			}
+		if w := forallBefore(f, g, rs, guard, app); w == "" {
+			okNode = true
 		} else {
 			why2 = w
 		}
 	}
 	x.Check("poolsFor:append:contains-no-node-ip", app.Pos(), okNode, "", "a CIDR can be accepted although it contains a node's internal IP of its family ("+why2+")")
-	x.Check("poolsFor:every-cidr", cidrLoop.Pos(), !loopHasBreak(g, cidrLoop) && !loopSkipsWithout(g, cidrLoop, func(n ast.Node) bool { return n == app.Top }, chk.NoGuard), "", "a CIDR of a pool can escape the checks (skipped or the loop left early)")
+	accepted := chk.GEvent(func(n ast.Node) bool { return n == app.Top })
 	// pool store
 	stores := g.Find(f.IsAssignPat("M[P.Name]", "POOL", chk.H("P", cr), chk.H("POOL", pool)))
 	x.Check("poolsFor:pool-store", poolLoop.Pos(), len(stores) == 1, "", "expected one pools[p.Name] = pool")
 	for _, s := range stores {
 		m := s.Node.(*ast.AssignStmt).Lhs[0].(*ast.IndexExpr).X
 		x.Check("poolsFor:store:no-duplicate-name", s.Pos(), g.Dominated(s, g.GPat(false, "M[P.Name] != nil", chk.H("M", func(e ast.Expr) bool { return f.SameExpr(e, m) }), chk.H("P", cr))), "", "a second pool with the same name silently replaces the first")
-		x.Check("poolsFor:store:after-cidr-checks", s.Pos(), g.AfterLoop(s, cidrLoop), "", "a pool is stored before all its CIDRs were checked")
+		why := forallBefore(f, g, cidrLoop, accepted, s)
+		x.Check("poolsFor:store:after-cidr-checks", s.Pos(), why == "", "", "a pool is stored although one of its CIDRs was not checked and accepted (skipped, or the loop left early): "+why)
 	}
 	x.Check("poolsFor:every-pool", poolLoop.Pos(), !loopHasBreak(g, poolLoop) && len(stores) == 1 && !loopSkipsWithout(g, poolLoop, func(n ast.Node) bool { return n == stores[0].Top }, chk.NoGuard), "", "a pool can be skipped")
 	co := need(x, p, cfgPkg, "", "cidrsOverlap")
